@@ -179,6 +179,20 @@ class _Index:
     def __index__(self):
         raise TypeError("index object is not an integer")
 
+    def any(self):
+        return bool(np.any(self.values != 0))       # pandas: truthiness of the LABELS (Index([0]).any() is False)
+
+    def all(self):
+        return bool(np.all(self.values != 0))
+
+    @property
+    def size(self):
+        return len(self.values)
+
+    @property
+    def empty(self):
+        return len(self.values) == 0
+
     def __getitem__(self, k):
         k = k.values if isinstance(k, FakeSeries) else k
         if isinstance(k, np.ndarray) and k.dtype == object and arrays.is_mask(k):
@@ -261,6 +275,23 @@ class FakeDF:
 
     def copy(self):
         return FakeDF({k: (v.copy()) for k, v in self.cols.items()}, index=None if self._index is None else self._index.copy())
+
+    def groupby(self, by):
+        return _GroupBy(self, by)
+
+
+class _GroupBy:
+    def __init__(self, df, by):
+        self.df, self.by = df, by
+
+    def cumcount(self):
+        keys = arrays.concretize_values(np.asarray(arrays._plain(self.df.cols[self.by]), dtype=object)) if arrays.has_sym(self.df.cols[self.by]) else np.asarray(self.df.cols[self.by])
+        seen = {}
+        out = []
+        for k in keys.tolist():
+            out.append(seen.get(k, 0))
+            seen[k] = seen.get(k, 0) + 1
+        return FakeSeries(np.array(out, dtype=np.int64), self.df.index.values)
 
 
 class PDFacade:
